@@ -290,6 +290,12 @@ func c16GenDoc(r *hx.RNG, stream string) c16Case {
 	if r.Chance(1, 10) {
 		nRuns = 0
 	}
+	// "0..k runs": now and then a document with hundreds of runs (a long-lived collector merging
+	// requests) — around the 8-bit boundaries of a run index
+	manyRuns := stream == "fresh" && r.Chance(1, 250)
+	if manyRuns {
+		nRuns = hx.Pick(r, []int{255, 256, 257, 300, 513})
+	}
 	if stream == "zerohop" && nRuns == 0 {
 		nRuns = r.Range(1, 4)
 	}
@@ -308,6 +314,9 @@ func c16GenDoc(r *hx.RNG, stream string) c16Case {
 		nh := r.Range(1, 8)
 		if r.Chance(1, 12) {
 			nh = r.Range(9, 40)
+		}
+		if manyRuns {
+			nh = r.Range(1, 2)
 		}
 		if i == zeroAt || (stream == "zerohop" && r.Chance(1, 3)) {
 			nh = 0
